@@ -128,12 +128,14 @@ func (fr *frame) exec(instr ssa.Instruction, st *State) {
 				}
 			case ElemPtrV:
 				fr.vals[x] = fr.loadElem(st, p)
+				fr.assumeLoadFacts(st, fr.vals[x], p.Elem)
 			case ElemRefV:
 				terms := make([]string, len(p.S.Elems))
 				for i, e := range p.S.Elems {
 					terms[i] = sel(e, add(p.S.Off, p.Idx))
 				}
 				fr.vals[x] = g.fromLeaves(p.S.Elem, terms)
+				fr.assumeLoadFacts(st, fr.vals[x], p.S.Elem)
 			default:
 				panic(unsupported(fmt.Sprintf("load through %T", p)))
 			}
@@ -345,7 +347,14 @@ func (fr *frame) execSlice(x *ssa.Slice, st *State, pos token.Position) {
 		}
 		// s[lo:hi] with hi <= cap is legal Go; we only model hi <= len (stricter, sound for no-panic)
 		s.oblig("slice", "", fr.safetyTags(), st.reach, and(app("<=", "0", lo), app("<=", lo, hi), app("<=", hi, b.Len)), pos, x.String())
-		fr.vals[x] = SliceV{Elem: b.Elem, Len: sub(hi, lo), Off: add(b.Off, lo), Nil: b.Nil, Elems: b.Elems}
+		elems := b.Elems
+		if lo != "0" {
+			elems = nil
+			for i, e := range b.Elems {
+				elems = append(elems, fx.shiftArr(e, lo, sub(hi, lo), fx.g.leaves(b.Elem)[i].S))
+			}
+		}
+		fr.vals[x] = SliceV{Elem: b.Elem, Len: sub(hi, lo), Off: "0", Nil: b.Nil, Elems: elems}
 	case PtrV: // pointer to array
 		at, ok := b.Elem.Underlying().(*types.Array)
 		if !ok {
@@ -360,9 +369,13 @@ func (fr *frame) execSlice(x *ssa.Slice, st *State, pos token.Position) {
 		var elems []string
 		for _, l := range ls {
 			arr := fx.heapLeaf(st, b.HT+b.Path+".elem"+l.Path, arrOf(l.S))
-			elems = append(elems, sel(arr, b.Addr))
+			elems = append(elems, fx.shiftArr(sel(arr, b.Addr), lo, sub(hi, lo), l.S))
 		}
-		fr.vals[x] = SliceV{Elem: at.Elem(), Len: sub(hi, lo), Off: lo, Nil: "false", Elems: elems}
+		fr.vals[x] = SliceV{Elem: at.Elem(), Len: sub(hi, lo), Off: "0", Nil: "false", Elems: elems}
+		if fr.sliceOrigin == nil {
+			fr.sliceOrigin = map[ssa.Value]PtrV{}
+		}
+		fr.sliceOrigin[x] = b
 	default:
 		panic(unsupported(fmt.Sprintf("slice of %T", b)))
 	}
@@ -558,7 +571,9 @@ func (fx *fnExec) strEq(a, b StrV) string {
 	}
 	rest := fx.s.fresh("streq!rest", SBool)
 	cs = append(cs, implies(app(">", a.Len, num(strEqBound)), rest))
-	return fx.s.define("streq", SBool, and(cs...))
+	// the same backing bytes are equal whatever their length
+	same := and(eq(a.Arr, b.Arr), eq(a.Off, b.Off), eq(a.Len, b.Len))
+	return fx.s.define("streq", SBool, or(same, and(cs...)))
 }
 
 func (fx *fnExec) constLen(v StrV) (int, bool) {
@@ -625,7 +640,7 @@ func (fr *frame) convert(x *ssa.Convert, st *State) Val {
 		}
 	case *types.Slice:
 		if sv, ok := v.(StrV); ok { // []byte(string)
-			return SliceV{Elem: tv.Elem(), Len: sv.Len, Off: sv.Off, Nil: "false", Elems: []string{sv.Arr}}
+			return SliceV{Elem: tv.Elem(), Len: sv.Len, Off: "0", Nil: "false", Elems: []string{fx.shiftArr(sv.Arr, sv.Off, sv.Len, SInt)}}
 		}
 		if sv, ok := v.(SliceV); ok {
 			return sv
@@ -748,4 +763,16 @@ func (fr *frame) checkFrame(st *State, p PtrV, pos token.Position) {
 		}
 		fx.s.oblig("frame", "", append([]string{"C18", "frame"}, c.Props...), st.reach, goal, pos, "store to "+leaf+" outside modifies")
 	}
+}
+
+// shiftArr returns an array r with r[k] = a[off+k] for 0 <= k < n (a itself when off is 0).
+func (fx *fnExec) shiftArr(a, off, n string, elemSort Sort) string {
+	if off == "0" {
+		return a
+	}
+	r := fx.s.fresh("shift", arrOf(elemSort))
+	k := sym(fmt.Sprintf("k!s%d", len(fx.s.Items)))
+	fx.s.assert(fmt.Sprintf("(forall ((%s Int)) (! (=> (and (<= 0 %s) (< %s %s)) (= (select %s %s) (select %s (+ %s %s)))) :pattern ((select %s %s))))", k, k, k, n, r, k, a, off, k, r, k))
+	fx.s.usesQuant = true
+	return r
 }
